@@ -35,11 +35,18 @@ def _one(args):
     if extra:
         vs += extra(res, sc)
     div, labels, nact = (None, set(), 0)
+    data_follow = None
     if want_follow:
         global _DRIVER
         if _DRIVER is None:
             _DRIVER = Driver()
         div, labels, nact = protofollow.follow(_DRIVER, res.events, sc.get("max_attempts", 2))
+        if prop in DATA_FOLLOW and div is None:
+            import sysdatafollow
+            ddiv, mism, dn = sysdatafollow.follow(_DRIVER, res.events, res.saves, sc.get("max_attempts", 2),
+                                                  sc.get("trainers", 0))
+            data_follow = {"divergence": ddiv, "mismatches": mism, "actions": dn,
+                           "saves": len(res.saves)}
     kinds = {e[1] for e in res.events}
     feats = []
     if any(e[1] == "try_pause_ret" and e[3] is True for e in res.events): feats.append("pause-acked")
@@ -57,11 +64,13 @@ def _one(args):
     return {"scenario": sc, "schedule": res.schedule, "outcome": res.outcome,
             "violations": [(v.key, v.what, v.case) for v in vs], "divergence": div,
             "labels": sorted(labels), "actions": nact, "features": feats,
-            "decisions": res.decisions, "events": len(res.events), "abort": res.sched_abort}
+            "decisions": res.decisions, "events": len(res.events), "abort": res.sched_abort,
+            "data_follow": data_follow}
 
 
 _DRIVER = None
 EXTRA_MONITORS: dict = {}
+DATA_FOLLOW = {"C04"}      # properties whose traces are also replayed through Pamiq.SysData
 
 
 def _init_worker() -> None:
@@ -98,6 +107,20 @@ def run_many(ctx: Ctx, prop: str, jobs: list, res: SuiteResult, want_follow: boo
                 res.name, f"implementation event #{d['event_index']} {d['event']} (model action "
                 f"`{d['action']}`) is not allowed by Pamiq.Proto: {d['model'][:300]}",
                 {"scenario": o["scenario"], "schedule": o["schedule"]}))
+        df = o.get("data_follow")
+        if df is not None:
+            res.extra["sysdata_actions_followed"] = res.extra.get("sysdata_actions_followed", 0) + df["actions"]
+            res.extra["sysdata_snapshots_compared"] = res.extra.get("sysdata_snapshots_compared", 0) + df["saves"]
+            if df["divergence"] is not None:
+                d = df["divergence"]
+                res.disagreements.append(Disagreement(
+                    res.name, f"implementation event #{d['event_index']} {d['event']} (model action "
+                    f"`{d['action']}`) is not allowed by Pamiq.SysData: {d['model'][:300]}",
+                    {"scenario": o["scenario"], "schedule": o["schedule"]}))
+            for m in df["mismatches"][:3]:
+                res.disagreements.append(Disagreement(
+                    res.name, "saved files differ from the snapshot predicted by Pamiq.SysData: " + m,
+                    {"scenario": o["scenario"], "schedule": o["schedule"]}))
         res.sample({"scenario": o["scenario"], "schedule_len": len(o["schedule"]),
                     "outcome": o["outcome"], "features": o["features"]})
     n_budget = res.histogram.get("outcome:aborted:budget", 0)
